@@ -553,3 +553,46 @@ type crcRec struct {
 }
 
 var _ = types.Typ
+
+func init() {
+	// io.CopyN(dst, src, n): byte-at-a-time so that a symbolic n forks linearly in the number of
+	// available bytes instead of being enumerated over its whole range.
+	reg("io.CopyN", func(p *Path, th *thread, caller *frame, pos token.Pos, fn *ssa.Function, args []Value) Value {
+		dst, src := args[0].(IfaceVal), args[1].(IfaceVal)
+		n := termArg(args[2])
+		count := int64(0)
+		for {
+			if !p.branch(Cmp(OSlt, BV(64, uint64(count)), n)) {
+				return TupleVal{BV(64, uint64(count)), IfaceVal{}}
+			}
+			one := mkByteSlice([]*Term{BV(8, 0)})
+			var k uint64
+			var rerr IfaceVal
+			for tries := 0; ; tries++ {
+				res := p.ifaceCall(th, caller, pos, src, "Read", one).(TupleVal)
+				k = p.concretize(res[0].(*Term), "CopyN read")
+				rerr = res[1].(IfaceVal)
+				if k > 0 || rerr.T != nil || tries > 100 {
+					break
+				}
+			}
+			if k == 1 {
+				w := p.ifaceCall(th, caller, pos, dst, "Write", one).(TupleVal)
+				if we := w[1].(IfaceVal); we.T != nil {
+					return TupleVal{BV(64, uint64(count)), we}
+				}
+				count++
+			}
+			if rerr.T != nil {
+				// io.CopyN: a short copy reports EOF (or the read error)
+				if p.branch(Cmp(OEq, BV(64, uint64(count)), n)) {
+					return TupleVal{BV(64, uint64(count)), IfaceVal{}}
+				}
+				return TupleVal{BV(64, uint64(count)), rerr}
+			}
+			if k == 0 {
+				return TupleVal{BV(64, uint64(count)), p.ioEOF()}
+			}
+		}
+	})
+}
